@@ -12,38 +12,43 @@
      no error, bytes consumed = bytes produced = `3 + Length`, trailing bytes ignored, `TlvRoundTrip.reencode`),
      `ttltlv_roundtrip` (4 bytes).  Well-formed: type < 128, `Length` < 512, `Length` = len(Data) — the library's own
      convention: the subtype byte is not counted.  `chassistlv_long_data_not_preserved`: 512 data bytes do not survive.
-  3. FRAME: NOT a round trip for any value — three genuine defects of lldp.go, each proved for ALL well-formed frames:
-       * `lldp_read_not_a_frame` / `lldp_read_ignores_ttl`: `LLDP.Read` copies Chassis, Port and Chassis AGAIN each to
-         offset 0 of the buffer, never writes the TTL TLV, and reports `2·|chassis| + |port|` bytes;
-       * `lldp_write_own_frame_fails`: `LLDP.Write` of Chassis ++ Port ++ TTL (standard TTL header) returns an error;
-         `lldp_write_clobbers_chassis`: with an End-of-LLDPDU TLV behind it, it "succeeds" but returns the TTL TLV misread
-         as the Chassis TLV; `lldp_write_ttl_untouched`: it never assigns the TTL field, whatever the input;
-       * `lldp_len_constant` / `lldp_len_wrong`: `Len()` is the constant 15.
-     Concrete, replayable witness with all bytes: `lldp_not_roundtrip`.  Strongest positive statement:
-     `lldp_write_partial` (`Write` is the exact inverse of a frame of THREE Chassis-format TLVs: third → Chassis,
-     second → Port).
+  3. FRAME: `lldp_roundtrip` — EVERY LLDP value whose three TLVs are well-formed round-trips (`LldpRoundTrip`):
+       * `lldp_len`: `Len()` = `(3 + Length) + (3 + Length') + 4` = the number of bytes of the frame;
+       * `lldp_read_any_buffer`: `LLDP.Read(b)` is `copy(b, Chassis ++ Port ++ TTL)` for EVERY buffer, count = bytes
+         that fitted; `lldp_read_frame` (buffer of at least `Len()` bytes: exactly the frame, count `Len()`),
+         `lldp_read_ttl_at` (the TTL TLV stands behind the other two), `lldp_read_short_buffer` (a shorter buffer gets
+         the first `len(b)` bytes, no error);
+       * `lldp_write_own_frame`: `LLDP.Write` of the frame, followed by anything (nothing, End-of-LLDPDU, more TLVs),
+         into any allocated receiver returns exactly the value (Chassis, Port AND TTL) and the frame's size;
+         `lldp_write_truncated`: a frame cut inside the TTL TLV is an error; `lldp_write_ttl_decoded`: for ANY input,
+         the TTL of the result is the receiver's (input ended earlier) or what `TTLTLV.Write` decodes at its offset;
+       * `LldpRoundTrip.reencode`: re-encoding the decoded frame reproduces the bytes.
+     Concrete, replayable instance with all bytes: `lldp_roundtrip_example`, `lldp_len_example`.
 
   DHCP
-  4. ONE OPTION: `dhcpoption_roundtrip` (tag, length byte, data; `Len()` = bytes; decoded alone or in front of the end
-     marker) for every well-formed non-pad option; `dhcpoption_codec` / `dhcpoption_pad_roundtrip_partial`: a pad option
-     (the single byte 0) round-trips as value and bytes, but `Len()` says 2 — DEFECT `dhcpoption_pad_len_overreports`.
+  4. ONE OPTION: `dhcpoption_roundtrip` (`DhcpOptionRoundTrip`: bytes, `Len()` = bytes, decoded alone or in front of the
+     end marker) for EVERY well-formed option, ordinary (tag, length byte, data) or pad (the single byte 0, `Len()` = 1:
+     `dhcpoption_pad_roundtrip`, `dhcpoption_pad_len`); `dhcpoption_codec` names bytes and size.
      Why the predicate is what it is: `dhcpoption_end_lost` (the end marker is never returned by the decoder),
      `dhcpoption_pad_carries_no_data`, `dhcpoption_254_refused`.
-  5. OPTION LIST: `dhcpoptions_roundtrip` — any mix of pads and ordinary options, order preserved, with or without the
-     end marker and trailing bytes behind it; `dhcpoptions_after_end_lost`: options behind an end marker inside the list
-     are encoded but never decoded.
-  6. MESSAGE: `dhcp_roundtrip` — `RoundTripPrefix kDHCP v` in the C09 sense for every well-formed message without pad
-     options: all fixed fields, the four addresses, hardware address and its length, server name, file, magic cookie,
+  5. OPTION LIST: `dhcpoptions_roundtrip` — any mix of pads and ordinary options, order preserved, bytes = sum of the
+     `Len()`s, with or without the end marker and trailing bytes behind it; `dhcpoptions_after_end_lost`: options behind
+     an end marker inside the list are encoded but never decoded.
+  6. MESSAGE: `dhcp_roundtrip` — `RoundTripPrefix kDHCP v` in the C09 sense for EVERY well-formed message, pad options
+     included: all fixed fields, the four addresses, hardware address and its length, server name, file, magic cookie,
      options; `Len()` = bytes; bytes behind the end marker are ignored (`dhcp_roundtrip_count`: `Write` reports `Len()`
-     bytes).  `dhcp_roundtrip_partial`: with pad options everything holds except the size clause — `Len()` = bytes + number
-     of pads (DEFECT witness `dhcp_pad_len_overreports`: 254 bytes on the wire, `Len()` = 255).
+     bytes; `dhcp_codec`: the same with the pieces named; `dhcp_pad_len_exact`: a message with a pad, bytes spelled out).
      Classes of values with every field in range that do NOT round-trip, each with the strongest true statement:
        * `dhcp_hwaddr_len_partial`: len(ClientHWAddr) ≠ HardwareLen ≤ 16 — the address comes back cut / zero-padded to
          HardwareLen; witness `dhcp_new_hwaddr_not_preserved`: the value `NewDHCP(…)` returns (16-byte address, length 0);
        * `dhcp_hwlen_over_16_rejected`: HardwareLen > 16 is encoded but the decoder rejects its own output;
-       * `dhcp_explicit_end_partial`: an explicit end option at the end of the list is dropped (same bytes as without);
-       * `dhcp_ip16_breaks_frame`: a 16-byte `net.IP` in an address field is written in full (no `To4()`), shifting every
-         later field — the decoder rejects the result.
+       * `dhcp_explicit_end_partial`: an explicit end option at the end of the list is dropped (same bytes as without,
+         `Len()` = bytes);
+       * `dhcp_addr_to4` / `dhcp_ip16_to4` / `dhcp_ip16_example`: an address field that is not 4 bytes long is written
+         in its 4-byte wire form (`To4()`; a 16-byte v4-mapped `net.IP` as its last four bytes): same bytes as the
+         message with the 4-byte address, intact frame, `Len()` = bytes, and the decoder returns the 4-byte form — the
+         decoded value differs from the original only in that representation; `dhcp_addr_not_v4_zeroed`: an address
+         that has no 4-byte form (IPv6, empty) is written as 0.0.0.0.
      Neither side pads a message to a minimum size; zero bytes behind the end marker of a received message are ignored
      (the `tail` in every decoder statement), zero bytes in front of it are pad options and come back as such.
 
@@ -201,13 +206,12 @@ theorem chassistlv_long_data_not_preserved (d : Bytes) (hd : d.length = 512) :
 
 example : (zeros 512).length = 512 := zeros_length 512
 
-/-! ## 3. LLDP — the frame (Chassis, Port, TTL): NOT a round trip
+/-! ## 3. LLDP — the frame (Chassis, Port, TTL): a round trip
 
-  `LLDP.Read` copies each TLV to the START of the caller's buffer (Chassis, Port, then Chassis a second time) and
-  never writes the TTL TLV; `LLDP.Write` parses Chassis, Port and then Chassis AGAIN from the third TLV, and never
-  parses the TTL; `LLDP.Len()` is the constant 15.  So no class of LLDP values round-trips.  Proved below: what each
-  of the two functions does for ALL well-formed values, the concrete counterexample, and the strongest positive
-  statement that is true (`lldp_write_partial`). -/
+  `LLDP.Read` writes the Chassis TLV, the Port TLV behind it and the TTL TLV behind that; `LLDP.Write` parses the three
+  in this order; `LLDP.Len()` is `(3 + |chassis id|) + (3 + |port id|) + 4`.  Proved below for ALL well-formed frames:
+  `Len()` = bytes, `Read` = `copy(b, frame)` for every buffer, `Write (frame ++ tail) = v`, re-encoding reproduces the
+  bytes. -/
 
 /-- well-formed LLDP frame value: three well-formed TLVs -/
 def LLDP.WFv : V → Prop
@@ -254,11 +258,7 @@ theorem lldp_shape (v : V) (h : LLDP.WFv v) :
     · exact hc.elim
   · exact h.elim
 
-/-- `LLDP.Len()` is 15 for every value, while a well-formed frame has `3 + Length + 3 + Length' + 4` bytes: the
-    reported size is right only when the two data lengths happen to add up to 5 -/
-theorem lldp_len_constant (v : V) : PLLDP.lenM v = .ok (15, v) := rfl
-
-/-- … its size on the wire -/
+/-- the size of a frame on the wire -/
 theorem lldp_wire_length (ty ln st : Nat) (d : Bytes) (ty' ln' st' : Nat) (d' : Bytes) (t3 l3 secs : Nat) :
     (lldpWire (.obj "p.LLDP" [.obj "p.ChassisTLV" [.num ty, .num ln, .num st, .bytes d],
       .obj "p.PortTLV" [.num ty', .num ln', .num st', .bytes d'], .obj "p.TTLTLV" [.num t3, .num l3, .num secs]])).length
@@ -266,61 +266,71 @@ theorem lldp_wire_length (ty ln st : Nat) (d : Bytes) (ty' ln' st' : Nat) (d' : 
   simp only [lldpWire, List.length_append, tlvWire_length, ttlWire_length]
   omega
 
-/-- DEFECT witness (size): the example frame has 19 bytes but `Len()` says 15 -/
-theorem lldp_len_wrong : PLLDP.lenM lldpEx = .ok (15, lldpEx) ∧ (lldpWire lldpEx).length = 19 := ⟨rfl, by decide⟩
+/-- the frame on the wire is the concatenation of what the three TLVs' own `Read` produce, in order -/
+theorem lldp_wire_parts (v : V) (h : LLDP.WFv v) :
+    ∃ c p t cb pb tb, v = .obj "p.LLDP" [c, p, t] ∧ PTLV.readBuf "p.ChassisTLV" c = .ok cb ∧
+      PTLV.readBuf "p.PortTLV" p = .ok pb ∧ PTLV.ttlReadBuf t = .ok tb ∧ lldpWire v = cb ++ (pb ++ tb) := by
+  obtain ⟨ty, ln, st, d, ty', ln', st', d', t3, l3, secs, rfl, _, _, _⟩ := lldp_shape v h
+  exact ⟨_, _, _, _, _, _, rfl, rfl, rfl, rfl, rfl⟩
 
-/-- `LLDP.Read` never looks at the TTL TLV -/
-theorem lldp_read_ignores_ttl (c p t t' : V) (b : Bytes) :
-    PLLDP.read (.obj "p.LLDP" [c, p, t]) b = PLLDP.read (.obj "p.LLDP" [c, p, t']) b := rfl
-
-/-- DEFECT (encoder), for ALL well-formed frames and every buffer that is long enough for the frame: `LLDP.Read` reports
-    `2·|chassis| + |port|` bytes, and what it leaves at the start of the buffer is the Chassis TLV alone — each TLV was
-    copied to offset 0, the last copy (Chassis again) wins; the TTL TLV is never written.  The buffer does not begin with
-    the frame `lldpWire v`. -/
-theorem lldp_read_not_a_frame (v : V) (h : LLDP.WFv v) (b : Bytes) (hb : (lldpWire v).length ≤ b.length) :
-    ∃ cb pb b', PLLDP.read v b = .ok (b', cb.length + pb.length + cb.length) ∧
-      b'.length = b.length ∧ b'.take cb.length = cb ∧ (lldpWire v).take (cb.length + pb.length) = cb ++ pb ∧
-      3 ≤ cb.length ∧ 3 ≤ pb.length ∧ (lldpWire v).length = cb.length + pb.length + 4 := by
+/-- SIZE, for ALL well-formed frames: `LLDP.Len()` is the number of bytes of the frame on the wire,
+    `(3 + Length) + (3 + Length') + 4`, and leaves the value alone -/
+theorem lldp_len (v : V) (h : LLDP.WFv v) :
+    ∃ l, PLLDP.lenM v = .ok (l, v) ∧ l.toNat = (lldpWire v).length := by
   obtain ⟨ty, ln, st, d, ty', ln', st', d', t3, l3, secs, rfl, hc, hp, _⟩ := lldp_shape v h
-  simp only [lldpWire, List.length_append, tlvWire_length, ttlWire_length] at hb
-  refine ⟨tlvWire ty ln st d, tlvWire ty' ln' st' d',
-    copyInto (copyInto (copyInto b (tlvWire ty ln st d)) (tlvWire ty' ln' st' d')) (tlvWire ty ln st d),
-    ?_, ?_, ?_, ?_, ?_, ?_, ?_⟩
-  · rw [lldp_read_long ty ln st d ty' ln' st' d' _ b (by omega) (by omega)]
-    simp only [tlvWire_length]
-  · simp only [copyInto_length]
-  · rw [copyInto_prefix _ _ (by simp only [copyInto_length, tlvWire_length]; omega)]
-    exact take_prefix _ _ _ rfl
-  · simp only [lldpWire]
-    rw [← List.append_assoc]
-    exact take_prefix _ _ _ (by simp)
-  · rw [tlvWire_length]; omega
-  · rw [tlvWire_length]; omega
-  · simp only [lldpWire, List.length_append, tlvWire_length, ttlWire_length]; omega
+  refine ⟨_, rfl, ?_⟩
+  rw [lldp_wire_length]
+  have e4 : (4 : UInt16).toNat = 4 := rfl
+  simp only [UInt16.toNat_add, n16_toNat (3 + d.length) (by omega), n16_toNat (3 + d'.length) (by omega), e4]
+  omega
+
+/-- size of the example frame: 19 bytes, and `Len()` says 19 -/
+theorem lldp_len_example : PLLDP.lenM lldpEx = .ok (19, lldpEx) ∧ (lldpWire lldpEx).length = 19 := ⟨rfl, by decide⟩
+
+/-- … also through the method table (`Len()` as the driver calls it) -/
+example : (methodsProtoBase.lookup "p.LLDP.Len").map (fun f => f lldpEx []) = some (.ok (lldpEx, [.num 19])) := rfl
+
+/-- ENCODER, for ALL well-formed frames and EVERY buffer: `LLDP.Read(b)` is `copy(b, frame)` — the frame's bytes
+    (Chassis, Port, TTL in order) are written from offset 0, cut where the buffer ends, the rest of the buffer is left
+    alone — and the count is the number of bytes that fitted -/
+theorem lldp_read_any_buffer (v : V) (h : LLDP.WFv v) (b : Bytes) :
+    PLLDP.read v b = .ok (copyInto b (lldpWire v), min b.length (lldpWire v).length) := by
+  obtain ⟨ty, ln, st, d, ty', ln', st', d', t3, l3, secs, rfl, hc, hp, _⟩ := lldp_shape v h
+  have := lldp_read_copy (.obj "p.ChassisTLV" [.num ty, .num ln, .num st, .bytes d])
+    (.obj "p.PortTLV" [.num ty', .num ln', .num st', .bytes d']) (.obj "p.TTLTLV" [.num t3, .num l3, .num secs])
+    (tlvWire ty ln st d) (tlvWire ty' ln' st' d') (ttlWire t3 l3 secs) b rfl rfl rfl
+    (by rw [tlvWire_length]; omega) (by rw [tlvWire_length]; omega)
+  rw [this]
+  simp only [lldpWire, List.length_append, Nat.add_assoc]
+
+/-- … in particular into a buffer of at least `Len()` bytes: the buffer then begins with exactly the frame, and `Read`
+    reports the frame's size (= `Len()`, `lldp_len`) -/
+theorem lldp_read_frame (v : V) (h : LLDP.WFv v) (b : Bytes) (hb : (lldpWire v).length ≤ b.length) :
+    PLLDP.read v b = .ok (lldpWire v ++ b.drop (lldpWire v).length, (lldpWire v).length) := by
+  rw [lldp_read_any_buffer v h b, copyInto_prefix _ _ hb, Nat.min_eq_right hb]
 
 example : LLDP.WFv lldpEx ∧ (lldpWire lldpEx).length ≤ (zeros 32).length := by decide
 
-/-- `LLDP.Write` never assigns the TTL TLV: whatever the input, the receiver's TTL field is returned unchanged -/
-theorem lldp_write_ttl_untouched (c p t : V) (b : Bytes) (w : V) (n : Nat)
-    (h : PLLDP.write (.obj "p.LLDP" [c, p, t]) b = .ok (w, n)) : ∃ c' p', w = .obj "p.LLDP" [c', p', t] := by
-  unfold PLLDP.write at h
-  obtain ⟨⟨m, e1, ch1⟩, _, g1⟩ := bind_ok_inv _ _ _ h
-  simp only at g1
-  split at g1
-  · split at g1
-    · cases g1
-    · cases g1; exact ⟨_, _, rfl⟩
-  · obtain ⟨⟨o, e2, pt1⟩, _, g2⟩ := bind_ok_inv _ _ _ g1
-    simp only at g2
-    split at g2
-    · split at g2
-      · cases g2
-      · cases g2; exact ⟨_, _, rfl⟩
-    · obtain ⟨⟨q, e3, ch2⟩, _, g3⟩ := bind_ok_inv _ _ _ g2
-      simp only at g3
-      split at g3
-      · cases g3
-      · cases g3; exact ⟨_, _, rfl⟩
+/-- … the TTL TLV is written: its 4 bytes stand behind the Chassis and Port TLVs -/
+theorem lldp_read_ttl_at (ty ln st : Nat) (d : Bytes) (ty' ln' st' : Nat) (d' : Bytes) (t3 l3 secs : Nat)
+    (h : LLDP.WFv (.obj "p.LLDP" [.obj "p.ChassisTLV" [.num ty, .num ln, .num st, .bytes d],
+      .obj "p.PortTLV" [.num ty', .num ln', .num st', .bytes d'], .obj "p.TTLTLV" [.num t3, .num l3, .num secs]]))
+    (b : Bytes) (hb : (3 + d.length) + (3 + d'.length) + 4 ≤ b.length) :
+    ∃ b' n, PLLDP.read (.obj "p.LLDP" [.obj "p.ChassisTLV" [.num ty, .num ln, .num st, .bytes d],
+        .obj "p.PortTLV" [.num ty', .num ln', .num st', .bytes d'], .obj "p.TTLTLV" [.num t3, .num l3, .num secs]]) b
+        = .ok (b', n) ∧ n = (3 + d.length) + (3 + d'.length) + 4 ∧
+      (b'.drop ((3 + d.length) + (3 + d'.length))).take 4 = ttlWire t3 l3 secs := by
+  refine ⟨_, _, lldp_read_frame _ h b (by rw [lldp_wire_length]; exact hb), lldp_wire_length .., ?_⟩
+  simp only [lldpWire, List.append_assoc]
+  rw [← List.append_assoc, List.drop_left' (by simp only [List.length_append, tlvWire_length])]
+  exact take_prefix 4 _ _ rfl
+
+/-- a too-short buffer: with `k ≤` frame size bytes of room `Read` writes the first `k` bytes of the frame and reports
+    `k` — no error is reported, the caller has to compare with `Len()` -/
+theorem lldp_read_short_buffer (v : V) (h : LLDP.WFv v) (b : Bytes) (hb : b.length ≤ (lldpWire v).length) :
+    PLLDP.read v b = .ok ((lldpWire v).take b.length, b.length) := by
+  rw [lldp_read_any_buffer v h b, Nat.min_eq_left hb]
+  simp [copyInto, List.drop_eq_nil_of_le hb]
 
 /-- an LLDP value given by the fields of its three TLVs -/
 def lldpOf (ty ln st : Nat) (d : Bytes) (ty' ln' st' : Nat) (d' : Bytes) (t3 l3 secs : Nat) : V :=
@@ -334,81 +344,122 @@ def lldpZero : V := .obj "p.LLDP" [.obj "p.ChassisTLV" [.num 0, .num 0, .num 0, 
 /-- `lldpZero` is the zero value registered for the kind -/
 example : (kindsProto.lookup "p.LLDP").map (·.zero) = some lldpZero := rfl
 
-/-- DEFECT (decoder), for ALL well-formed frames with the standard TTL header (type 3, length 2): `LLDP.Write` of the
-    frame's own wire bytes (Chassis, Port, TTL, nothing behind) FAILS — the third TLV is parsed as a Chassis TLV, which
-    wants a subtype byte and two data bytes where only the two bytes of the seconds are left -/
-theorem lldp_write_own_frame_fails (c1 c2 c3 c4 p1 p2 p3 p4 ttl : V) (ty ln st : Nat) (d : Bytes) (ty' ln' st' : Nat)
-    (d' : Bytes) (secs : Nat) (h : LLDP.WFv (lldpOf ty ln st d ty' ln' st' d' 3 2 secs)) :
-    PLLDP.write (.obj "p.LLDP" [.obj "p.ChassisTLV" [c1, c2, c3, c4], .obj "p.PortTLV" [p1, p2, p3, p4], ttl])
-      (lldpWire (lldpOf ty ln st d ty' ln' st' d' 3 2 secs)) = .err := by
-  simp only [lldpOf, LLDP.WFv, ChassisTLV.WFv, PortTLV.WFv, TTLTLV.WFv] at h
-  obtain ⟨⟨h1, h2, h3, h4⟩, ⟨g1, g2, g3, g4⟩, _, _, hs⟩ := h
-  simp only [lldpOf, lldpWire, ttl_as_chassis_short]
-  have hlt : (n16 secs).toNat / 256 < 256 := by have := (n16 secs).toNat_lt; omega
-  exact lldp_write_third_short c1 c2 c3 c4 p1 p2 p3 p4 ttl ty ln st d ty' ln' st' d' 3 2 _ [lo16 (n16 secs)]
-    h1 h2 h3 h4 g1 g2 g3 g4 (by omega) (by omega) hlt (by simp)
+/-- DECODER, for ALL well-formed frames, any allocated receiver and anything behind the frame (nothing, the
+    End-of-LLDPDU TLV `00 00`, further TLVs): `LLDP.Write` of the frame's wire bytes returns exactly the frame value —
+    Chassis, Port AND TTL, whatever the receiver held — without error, and reports the frame's size -/
+theorem lldp_write_own_frame (c1 c2 c3 c4 p1 p2 p3 p4 t1 t2 t3 : V) (v : V) (h : LLDP.WFv v) (tail : Bytes) :
+    PLLDP.write (.obj "p.LLDP" [.obj "p.ChassisTLV" [c1, c2, c3, c4], .obj "p.PortTLV" [p1, p2, p3, p4],
+        .obj "p.TTLTLV" [t1, t2, t3]]) (lldpWire v ++ tail) = .ok (v, (lldpWire v).length) := by
+  obtain ⟨ty, ln, st, d, ty', ln', st', d', t3', l3, secs, rfl, ⟨h1, h2, h3, h4⟩, ⟨g1, g2, g3, g4⟩, k1, k2, k3⟩ :=
+    lldp_shape v h
+  rw [lldp_wire_length]
+  simp only [lldpWire, List.append_assoc]
+  rw [lldp_write_frame c1 c2 c3 c4 p1 p2 p3 p4 t1 t2 t3 ty ln st d ty' ln' st' d' t3' l3 secs tail
+    h1 h2 h3 h4 g1 g2 g3 g4 k1 k2 k3, h4, g4]
 
 example : LLDP.WFv (lldpOf 1 6 4 [0, 0x1b, 0x21, 0xaa, 0xbb, 0xcc] 2 3 5 [0x65, 0x74, 0x68] 3 2 120) := by decide
 
-/-- DEFECT (decoder), for ALL such frames terminated by the End-of-LLDPDU TLV (two zero bytes) and anything behind it:
-    `LLDP.Write` succeeds, but the Chassis TLV it returns is the TTL TLV misread — type 3, length 2, subtype = high byte
-    of the seconds, data = low byte of the seconds and the first zero byte — the real Chassis TLV is lost, and the TTL
-    field is not decoded at all (it keeps the receiver's value `ttl`) -/
-theorem lldp_write_clobbers_chassis (c1 c2 c3 c4 p1 p2 p3 p4 ttl : V) (ty ln st : Nat) (d : Bytes) (ty' ln' st' : Nat)
-    (d' : Bytes) (secs : Nat) (h : LLDP.WFv (lldpOf ty ln st d ty' ln' st' d' 3 2 secs)) (tail : Bytes) :
-    PLLDP.write (.obj "p.LLDP" [.obj "p.ChassisTLV" [c1, c2, c3, c4], .obj "p.PortTLV" [p1, p2, p3, p4], ttl])
-        (lldpWire (lldpOf ty ln st d ty' ln' st' d' 3 2 secs) ++ (0 :: 0 :: tail))
-      = .ok (.obj "p.LLDP" [.obj "p.ChassisTLV" [.num 3, .num 2, .num (secs / 256), .bytes [n8 (secs % 256), 0]],
-          .obj "p.PortTLV" [.num ty', .num ln', .num st', .bytes d'], ttl],
-          (lldpWire (lldpOf ty ln st d ty' ln' st' d' 3 2 secs)).length + 1) := by
-  simp only [lldpOf, LLDP.WFv, ChassisTLV.WFv, PortTLV.WFv, TTLTLV.WFv] at h
-  obtain ⟨⟨h1, h2, h3, h4⟩, ⟨g1, g2, g3, g4⟩, _, _, hs⟩ := h
-  simp only [lldpOf, lldpWire, List.append_assoc, ttl_as_chassis]
-  have hn := n16_toNat secs hs
-  have hlt : (n16 secs).toNat / 256 < 256 := by omega
-  rw [lldp_write_three c1 c2 c3 c4 p1 p2 p3 p4 ttl ty ln st d ty' ln' st' d' 3 2 _ [lo16 (n16 secs), 0] (0 :: tail)
-    h1 h2 h3 h4 g1 g2 g3 g4 (by omega) (by omega) hlt rfl]
-  simp only [hn, lo16, n8, List.length_append, tlvWire_length, ttlWire_length, h4, g4]
-  apply ok_count
-  omega
-
-/-- DEFECT witness with the bytes spelled out (replayable on the Go library): the frame `lldpEx` — chassis id MAC
-    00:1b:21:aa:bb:cc, port id "eth", TTL 120 s; 19 bytes `02 06 04 00 1b 21 aa bb cc | 04 03 05 65 74 68 | 06 02 00 78` —
-    (a) `Read` into a 32-byte zero buffer reports 24 bytes and leaves only the Chassis TLV at the start of the buffer;
-    (b) `Write` of the 19 wire bytes fails;
-    (c) `Write` of the 19 wire bytes + End-of-LLDPDU (`00 00`) "succeeds" with 20 bytes and returns a Chassis TLV
-        (type 3, length 2, subtype 0, data `78 00`) that is the TTL TLV misread, and an undecoded TTL (still 0) -/
-theorem lldp_not_roundtrip :
-    PLLDP.read lldpEx (zeros 32) = .ok ([2, 6, 4, 0, 0x1b, 0x21, 0xaa, 0xbb, 0xcc] ++ zeros 23, 24) ∧
-    PLLDP.write lldpZero [2, 6, 4, 0, 0x1b, 0x21, 0xaa, 0xbb, 0xcc, 4, 3, 5, 0x65, 0x74, 0x68, 6, 2, 0, 120] = .err ∧
-    PLLDP.write lldpZero [2, 6, 4, 0, 0x1b, 0x21, 0xaa, 0xbb, 0xcc, 4, 3, 5, 0x65, 0x74, 0x68, 6, 2, 0, 120, 0, 0]
-      = .ok (.obj "p.LLDP" [.obj "p.ChassisTLV" [.num 3, .num 2, .num 0, .bytes [120, 0]],
-          .obj "p.PortTLV" [.num 2, .num 3, .num 5, .bytes [0x65, 0x74, 0x68]], .obj "p.TTLTLV" [.num 0, .num 0, .num 0]], 20) :=
-  ⟨rfl, rfl, rfl⟩
-
-/-- the strongest decoder statement that is true: `LLDP.Write` is the exact inverse of a frame made of THREE
-    Chassis-format TLVs — it returns the third as Chassis, the second as Port, reports the bytes of all three, and
-    ignores trailing bytes.  Missing with respect to C09: the first TLV is dropped (overwritten by the third), the TTL
-    TLV is never decoded, so `Write (wire v) = v` holds for no well-formed `v`; `Read` produces no frame; `Len` is
-    constant. -/
-theorem lldp_write_partial (c1 c2 c3 c4 p1 p2 p3 p4 ttl : V) (a : V) (ha : ChassisTLV.WFv a) (p : V) (hp : PortTLV.WFv p)
-    (c : V) (hc : ChassisTLV.WFv c) (tail : Bytes) :
-    ∃ ab pb cb, PTLV.readBuf "p.ChassisTLV" a = .ok ab ∧ PTLV.readBuf "p.PortTLV" p = .ok pb ∧
-      PTLV.readBuf "p.ChassisTLV" c = .ok cb ∧
-      PLLDP.write (.obj "p.LLDP" [.obj "p.ChassisTLV" [c1, c2, c3, c4], .obj "p.PortTLV" [p1, p2, p3, p4], ttl])
-          (ab ++ (pb ++ (cb ++ tail)))
-        = .ok (.obj "p.LLDP" [c, p, ttl], ab.length + pb.length + cb.length) := by
+/-- a frame cut inside its TTL TLV (fewer than 4 bytes behind the Port TLV): `LLDP.Write` reports an error -/
+theorem lldp_write_truncated (c1 c2 c3 c4 p1 p2 p3 p4 t1 t2 t3 : V) (a : V) (ha : ChassisTLV.WFv a) (p : V)
+    (hp : PortTLV.WFv p) (rest : Bytes) (hr : rest.length < 4) :
+    ∃ ab pb, PTLV.readBuf "p.ChassisTLV" a = .ok ab ∧ PTLV.readBuf "p.PortTLV" p = .ok pb ∧
+      PLLDP.write (.obj "p.LLDP" [.obj "p.ChassisTLV" [c1, c2, c3, c4], .obj "p.PortTLV" [p1, p2, p3, p4],
+        .obj "p.TTLTLV" [t1, t2, t3]]) (ab ++ (pb ++ rest)) = .err := by
   obtain ⟨ty, ln, st, d, rfl, a1, a2, a3, a4⟩ := chassis_shape a ha
   obtain ⟨ty', ln', st', d', rfl, b1, b2, b3, b4⟩ := port_shape p hp
-  obtain ⟨ty2, ln2, st2, d2, rfl, e1, e2, e3, e4⟩ := chassis_shape c hc
-  refine ⟨_, _, _, rfl, rfl, rfl, ?_⟩
-  have := lldp_write_three c1 c2 c3 c4 p1 p2 p3 p4 ttl ty ln st d ty' ln' st' d' ty2 ln2 st2 d2 tail
-    a1 a2 a3 a4 b1 b2 b3 b4 e1 e2 e3 e4
+  refine ⟨_, _, rfl, rfl, ?_⟩
+  have := lldp_write_ttl_short c1 c2 c3 c4 p1 p2 p3 p4 t1 t2 t3 ty ln st d ty' ln' st' d' rest a1 a2 a3 a4 b1 b2 b3 b4 hr
   simp only [tlvWire] at this ⊢
-  rw [this]
-  apply ok_count
-  simp [a4, b4, e4]
-  omega
+  exact this
+
+/-- where the TTL field of the result comes from, for ANY receiver and ANY input on which `LLDP.Write` succeeds: either
+    the input ended before the third TLV (the Chassis or the Port call consumed nothing) and the receiver's TTL field is
+    unchanged, or it is what `TTLTLV.Write` decodes, without error, behind the bytes the Chassis and Port calls consumed -/
+theorem lldp_write_ttl_decoded (c p t : V) (b : Bytes) (w : V) (n : Nat)
+    (h : PLLDP.write (.obj "p.LLDP" [c, p, t]) b = .ok (w, n)) :
+    ∃ c' p' t', w = .obj "p.LLDP" [c', p', t'] ∧
+      (t' = t ∨ ∃ m o q, 0 < m ∧ 0 < o ∧ n = m + o + q ∧ PTLV.ttlWrite t (b.drop (m + o)) = .ok (q, false, t')) := by
+  unfold PLLDP.write at h
+  obtain ⟨⟨m, e1, ch1⟩, _, g1⟩ := bind_ok_inv _ _ _ h
+  simp only at g1
+  split at g1
+  · split at g1
+    · cases g1
+    · cases g1; exact ⟨_, _, _, rfl, Or.inl rfl⟩
+  · rename_i hm
+    obtain ⟨⟨o, e2, pt1⟩, _, g2⟩ := bind_ok_inv _ _ _ g1
+    simp only at g2
+    split at g2
+    · split at g2
+      · cases g2
+      · cases g2; exact ⟨_, _, _, rfl, Or.inl rfl⟩
+    · rename_i ho
+      obtain ⟨⟨q, e3, t1⟩, g4, g3⟩ := bind_ok_inv _ _ _ g2
+      simp only at g3
+      split at g3
+      · cases g3
+      · rename_i he
+        cases g3
+        have he' : e3 = false := by simpa using he
+        subst he'
+        exact ⟨_, _, _, rfl, Or.inr ⟨m, o, q, by omega, by omega, rfl, g4⟩⟩
+
+/-- `LldpRoundTrip v` (a kind with `Len`/`Read`/`Write` only): the three TLVs' own `Read` produce `cb`, `pb`, `tb`;
+    `Len()` is the size of `bs = cb ++ pb ++ tb` and leaves `v` alone; `Read` into any buffer of at least `Len()` bytes
+    writes exactly `bs` at its start (rest untouched) and reports `Len()`; `Write` of `bs` — followed by anything — into
+    any allocated receiver gives back exactly `v`, without error, and reports `Len()` bytes consumed -/
+def LldpRoundTrip (v : V) : Prop :=
+  ∃ c p t cb pb tb bs l, v = .obj "p.LLDP" [c, p, t] ∧
+    PTLV.readBuf "p.ChassisTLV" c = .ok cb ∧ PTLV.readBuf "p.PortTLV" p = .ok pb ∧ PTLV.ttlReadBuf t = .ok tb ∧
+    bs = cb ++ (pb ++ tb) ∧ PLLDP.lenM v = .ok (l, v) ∧ l.toNat = bs.length ∧
+    (∀ b, l.toNat ≤ b.length → PLLDP.read v b = .ok (bs ++ b.drop l.toNat, l.toNat)) ∧
+    ∀ c1 c2 c3 c4 p1 p2 p3 p4 t1 t2 t3 tail,
+      PLLDP.write (.obj "p.LLDP" [.obj "p.ChassisTLV" [c1, c2, c3, c4], .obj "p.PortTLV" [p1, p2, p3, p4],
+        .obj "p.TTLTLV" [t1, t2, t3]]) (bs ++ tail) = .ok (v, l.toNat)
+
+/-- THE LLDP FRAME ROUND TRIP: every LLDP value whose three TLVs are well-formed round-trips —
+    `Write (Read v) = v`, `Len()` = number of bytes `Read` writes = number of bytes `Write` consumes -/
+theorem lldp_roundtrip (v : V) (h : LLDP.WFv v) : LldpRoundTrip v := by
+  obtain ⟨c, p, t, cb, pb, tb, hv, r1, r2, r3, hw⟩ := lldp_wire_parts v h
+  obtain ⟨l, hl1, hl2⟩ := lldp_len v h
+  refine ⟨c, p, t, cb, pb, tb, lldpWire v, l, hv, r1, r2, r3, hw, hl1, hl2, ?_, ?_⟩
+  · intro b hb
+    rw [hl2] at hb ⊢
+    exact lldp_read_frame v h b hb
+  · intro c1 c2 c3 c4 p1 p2 p3 p4 t1 t2 t3 tail
+    rw [hl2]
+    exact lldp_write_own_frame c1 c2 c3 c4 p1 p2 p3 p4 t1 t2 t3 v h tail
+
+/-- re-encoding the decoded frame reproduces the bytes: whatever `Write` makes of `bs ++ tail`, `Read` of it into any
+    buffer that is long enough writes `bs` again -/
+theorem LldpRoundTrip.reencode {v : V} (h : LldpRoundTrip v) :
+    ∃ bs, (∀ b, bs.length ≤ b.length → PLLDP.read v b = .ok (bs ++ b.drop bs.length, bs.length)) ∧
+      ∀ c1 c2 c3 c4 p1 p2 p3 p4 t1 t2 t3 tail w n,
+        PLLDP.write (.obj "p.LLDP" [.obj "p.ChassisTLV" [c1, c2, c3, c4], .obj "p.PortTLV" [p1, p2, p3, p4],
+          .obj "p.TTLTLV" [t1, t2, t3]]) (bs ++ tail) = .ok (w, n) →
+        n = bs.length ∧ ∀ b, bs.length ≤ b.length → PLLDP.read w b = .ok (bs ++ b.drop bs.length, bs.length) := by
+  obtain ⟨c, p, t, cb, pb, tb, bs, l, _, _, _, _, _, _, hl, hr, hw⟩ := h
+  rw [hl] at hr hw
+  refine ⟨bs, hr, ?_⟩
+  intro c1 c2 c3 c4 p1 p2 p3 p4 t1 t2 t3 tail w n hwn
+  rw [hw] at hwn
+  cases hwn
+  exact ⟨rfl, hr⟩
+
+/-- the round trip with the bytes spelled out (replayable on the Go library): the frame `lldpEx` — chassis id MAC
+    00:1b:21:aa:bb:cc, port id "eth", TTL 120 s; 19 bytes `02 06 04 00 1b 21 aa bb cc | 04 03 05 65 74 68 | 06 02 00 78` —
+    (a) `Read` into a 32-byte zero buffer reports 19 bytes and leaves the 19 frame bytes at the start of the buffer;
+    (b) `Write` of the 19 wire bytes into `new(LLDP)` returns `lldpEx` and 19;
+    (c) so does `Write` of the 19 wire bytes + End-of-LLDPDU (`00 00`);
+    (d) `Read` into a 12-byte buffer reports 12 and writes the first 12 bytes of the frame -/
+theorem lldp_roundtrip_example :
+    PLLDP.read lldpEx (zeros 32)
+      = .ok ([2, 6, 4, 0, 0x1b, 0x21, 0xaa, 0xbb, 0xcc, 4, 3, 5, 0x65, 0x74, 0x68, 6, 2, 0, 120] ++ zeros 13, 19) ∧
+    PLLDP.write lldpZero [2, 6, 4, 0, 0x1b, 0x21, 0xaa, 0xbb, 0xcc, 4, 3, 5, 0x65, 0x74, 0x68, 6, 2, 0, 120] = .ok (lldpEx, 19) ∧
+    PLLDP.write lldpZero [2, 6, 4, 0, 0x1b, 0x21, 0xaa, 0xbb, 0xcc, 4, 3, 5, 0x65, 0x74, 0x68, 6, 2, 0, 120, 0, 0]
+      = .ok (lldpEx, 19) ∧
+    PLLDP.read lldpEx (zeros 12) = .ok ([2, 6, 4, 0, 0x1b, 0x21, 0xaa, 0xbb, 0xcc, 4, 3, 5], 12) :=
+  ⟨rfl, rfl, rfl, rfl⟩
 
 
 /-! ## 4. DHCP — one option -/
@@ -427,10 +478,6 @@ theorem dhcpoption_wf_iff (o : V) : DhcpOption.WFv o ↔ DhcpOptOK o := by
   unfold DhcpOption.WFv DhcpOptOK
   split <;> simp
 
-/-- not a pad option -/
-def DhcpOption.NoPad (o : V) : Prop := dhcpPad o = 0
-instance : DecidablePred DhcpOption.NoPad := fun o => by unfold DhcpOption.NoPad; infer_instance
-
 /-- `DhcpOptionRoundTrip o`: `DHCPMarshalOption o` succeeds with bytes `bs`; `Len()` reports `bs.length`;
     `DHCPParseOptions` of `bs` — alone (with any spare capacity behind the slice), or followed by the end marker and
     arbitrary further bytes inside the slice — returns exactly `[o]` -/
@@ -439,19 +486,18 @@ def DhcpOptionRoundTrip (o : V) : Prop :=
     (∀ spare, PDhcpOpt.parseOptions ⟨bs ++ spare, bs.length⟩ = .ok [o]) ∧
     ∀ tail n, bs.length < n → PDhcpOpt.parseOptions ⟨bs ++ (255 :: tail), n⟩ = .ok [o]
 
-/-- value and bytes of ANY well-formed option (pad included) round-trip; `Len()` reports the bytes plus 1 for a pad -/
+/-- value, bytes and size of ANY well-formed option (pad included) round-trip, with the bytes and the size named:
+    the wire form is `dhcpOptWire o` (the single byte 0 for a pad, else tag, length, data) and `Len()` is its length -/
 theorem dhcpoption_codec (o : V) (h : DhcpOption.WFv o) :
-    ∃ bs l, PDhcpOpt.marshalOption o = .ok bs ∧ PDhcpOpt.len o = .ok l ∧ l.toNat = bs.length + dhcpPad o ∧
+    ∃ bs l, PDhcpOpt.marshalOption o = .ok bs ∧ PDhcpOpt.len o = .ok l ∧ l.toNat = bs.length ∧ bs = dhcpOptWire o ∧
       (∀ spare, PDhcpOpt.parseOptions ⟨bs ++ spare, bs.length⟩ = .ok [o]) ∧
       ∀ tail n, bs.length < n → PDhcpOpt.parseOptions ⟨bs ++ (255 :: tail), n⟩ = .ok [o] := by
   have hk := (dhcpoption_wf_iff o).mp h
   have hall : ∀ x ∈ [o], DhcpOptOK x := by intro x hx; simp at hx; subst hx; exact hk
   obtain ⟨w1, _⟩ := dhcp_wire_len o hk
-  refine ⟨dhcpOptWire o, n16 (dhcpOptLen o), dhcp_marshalOption o hk, ?_, ?_, ?_, ?_⟩
-  · obtain ⟨t, d, rfl, _, _, _⟩ := dhcp_opt_shape o hk
-    rfl
+  refine ⟨dhcpOptWire o, n16 (dhcpOptLen o), dhcp_marshalOption o hk, dhcp_opt_len o hk, ?_, rfl, ?_, ?_⟩
   · obtain ⟨t, d, rfl, _, h2, _⟩ := dhcp_opt_shape o hk
-    rw [n16_toNat _ (by simp [dhcpOptLen]; omega)]
+    rw [n16_toNat _ (by simp only [dhcpOptLen]; split <;> omega)]
     omega
   · intro spare
     have := dhcp_parse_exact [o] hall spare
@@ -460,39 +506,40 @@ theorem dhcpoption_codec (o : V) (h : DhcpOption.WFv o) :
     have := dhcp_parse_end [o] hall tail n (by rwa [dhcp_one])
     rwa [dhcp_one] at this
 
-/-- a well-formed option that is not a pad round-trips: tag, length byte, data; `Len()` = bytes on the wire -/
-theorem dhcpoption_roundtrip (o : V) (h : DhcpOption.WFv o) (hp : DhcpOption.NoPad o) : DhcpOptionRoundTrip o := by
-  obtain ⟨bs, l, h1, h2, h3, h4, h5⟩ := dhcpoption_codec o h
-  unfold DhcpOption.NoPad at hp
-  exact ⟨bs, l, h1, h2, by omega, h4, h5⟩
+/-- EVERY well-formed option round-trips — an ordinary one (tag, length byte, data) and a pad option (the single byte
+    0) alike; `Len()` = bytes on the wire -/
+theorem dhcpoption_roundtrip (o : V) (h : DhcpOption.WFv o) : DhcpOptionRoundTrip o := by
+  obtain ⟨bs, l, h1, h2, h3, _, h4, h5⟩ := dhcpoption_codec o h
+  exact ⟨bs, l, h1, h2, h3.symm, h4, h5⟩
 
-example : DhcpOption.WFv (.obj "p.dhcpoption" [.num 61, .bytes [1, 0xaa, 0xbb, 0xcc, 0xdd, 0xee, 0xff]]) ∧
-    DhcpOption.NoPad (.obj "p.dhcpoption" [.num 61, .bytes [1, 0xaa, 0xbb, 0xcc, 0xdd, 0xee, 0xff]]) := by decide
+example : DhcpOption.WFv (.obj "p.dhcpoption" [.num 61, .bytes [1, 0xaa, 0xbb, 0xcc, 0xdd, 0xee, 0xff]]) := by decide
 
-/-- pad option: value and byte round-trip hold (it is the single byte 0 and comes back as a pad option), but the size
-    clause of C09 fails — see `dhcpoption_pad_len_overreports`.  Missing with respect to `DhcpOptionRoundTrip`:
-    `bs.length = Len()`. -/
-theorem dhcpoption_pad_roundtrip_partial :
+example : DhcpOption.WFv (.obj "p.dhcpoption" [.num 0, .bytes []]) := by decide
+
+/-- the pad option with its bytes spelled out: it is the single byte 0, `Len()` says 1, and it comes back as a pad
+    option — the full `DhcpOptionRoundTrip` -/
+theorem dhcpoption_pad_roundtrip :
     PDhcpOpt.marshalOption (.obj "p.dhcpoption" [.num 0, .bytes []]) = .ok [0] ∧
+    PDhcpOpt.len (.obj "p.dhcpoption" [.num 0, .bytes []]) = .ok 1 ∧
     (∀ spare, PDhcpOpt.parseOptions ⟨[0] ++ spare, 1⟩ = .ok [.obj "p.dhcpoption" [.num 0, .bytes []]]) ∧
-    ∀ tail n, 1 < n → PDhcpOpt.parseOptions ⟨[0] ++ (255 :: tail), n⟩ = .ok [.obj "p.dhcpoption" [.num 0, .bytes []]] := by
-  obtain ⟨bs, l, h1, _, _, h4, h5⟩ := dhcpoption_codec (.obj "p.dhcpoption" [.num 0, .bytes []]) (by decide)
+    (∀ tail n, 1 < n → PDhcpOpt.parseOptions ⟨[0] ++ (255 :: tail), n⟩ = .ok [.obj "p.dhcpoption" [.num 0, .bytes []]]) ∧
+    DhcpOptionRoundTrip (.obj "p.dhcpoption" [.num 0, .bytes []]) := by
+  obtain ⟨bs, l, h1, _, _, _, h4, h5⟩ := dhcpoption_codec (.obj "p.dhcpoption" [.num 0, .bytes []]) (by decide)
   have e : PDhcpOpt.marshalOption (.obj "p.dhcpoption" [.num 0, .bytes []]) = .ok [0] := rfl
   rw [e] at h1
   cases h1
-  exact ⟨rfl, h4, h5⟩
+  exact ⟨rfl, rfl, h4, h5, dhcpoption_roundtrip _ (by decide)⟩
 
-/-- DEFECT witness (size): `dhcpoption.Len()` is `len(data) + 2` whatever the tag, but a pad option is ONE byte on the
-    wire: reported size 2, bytes written 1 (and consumed 1) -/
-theorem dhcpoption_pad_len_overreports :
-    PDhcpOpt.len (.obj "p.dhcpoption" [.num 0, .bytes []]) = .ok 2 ∧
-    PDhcpOpt.marshalOption (.obj "p.dhcpoption" [.num 0, .bytes []]) = .ok [0] := ⟨rfl, rfl⟩
+/-- `dhcpoption.Len()` of a pad option is 1 whatever data the value holds, the one byte `DHCPMarshalOption` writes -/
+theorem dhcpoption_pad_len (d : Bytes) :
+    PDhcpOpt.len (.obj "p.dhcpoption" [.num 0, .bytes d]) = .ok 1 ∧
+    PDhcpOpt.marshalOption (.obj "p.dhcpoption" [.num 0, .bytes d]) = .ok [0] := ⟨rfl, rfl⟩
 
-/-- why `DhcpOption.WFv` excludes tag 255: the end marker is one byte on the wire (`Len()` says 2), and
+/-- why `DhcpOption.WFv` excludes tag 255: the end marker is one byte on the wire (and `Len()` says 1), but
     `DHCPParseOptions` stops at it without returning it — the option is lost -/
 theorem dhcpoption_end_lost :
     PDhcpOpt.marshalOption (.obj "p.dhcpoption" [.num 255, .bytes []]) = .ok [255] ∧
-    PDhcpOpt.len (.obj "p.dhcpoption" [.num 255, .bytes []]) = .ok 2 ∧
+    PDhcpOpt.len (.obj "p.dhcpoption" [.num 255, .bytes []]) = .ok 1 ∧
     PDhcpOpt.parseOptions (Slice.exact [255]) = .ok [] := ⟨rfl, rfl, rfl⟩
 
 /-- why a pad option must have no data: only the tag byte reaches the wire, the data is dropped -/
@@ -511,15 +558,16 @@ example : (zeros 254).length = 254 := zeros_length 254
 /-! ## 5. DHCP — option lists -/
 
 /-- a list of well-formed options (pads and ordinary options mixed in any order) is encoded as the concatenation of
-    the options' encodings in order, and `DHCPParseOptions` returns exactly the list, in order — from the bytes alone, or
-    from the bytes followed by the end marker and anything behind it -/
+    the options' encodings in order — as many bytes as the options' `Len()` add up to — and `DHCPParseOptions` returns
+    exactly the list, in order — from the bytes alone, or from the bytes followed by the end marker and anything behind it -/
 theorem dhcpoptions_roundtrip (os : List V) (h : ∀ o ∈ os, DhcpOption.WFv o) :
-    ∃ bs, PDHCP.optBytes os = .ok bs ∧ bs.length + (os.map dhcpPad).sum = (os.map dhcpOptLen).sum ∧
+    ∃ bs, PDHCP.optBytes os = .ok bs ∧ bs.length = (os.map dhcpOptLen).sum ∧
+      PDHCP.optLens os = .ok (os.map (fun o => n16 (dhcpOptLen o))) ∧
       (∀ spare, PDhcpOpt.parseOptions ⟨bs ++ spare, bs.length⟩ = .ok os) ∧
       ∀ tail n, bs.length < n → PDhcpOpt.parseOptions ⟨bs ++ (255 :: tail), n⟩ = .ok os := by
   have hk : ∀ o ∈ os, DhcpOptOK o := fun o ho => (dhcpoption_wf_iff o).mp (h o ho)
-  obtain ⟨e1, _, _, e4, _⟩ := dhcp_opts_enc os hk
-  exact ⟨dhcpOptsWire os, e1, e4, dhcp_parse_exact os hk, dhcp_parse_end os hk⟩
+  obtain ⟨e1, _, e3, e4, _⟩ := dhcp_opts_enc os hk
+  exact ⟨dhcpOptsWire os, e1, e4, e3, dhcp_parse_exact os hk, dhcp_parse_end os hk⟩
 
 example : ∀ o ∈ [V.obj "p.dhcpoption" [.num 53, .bytes [1]], .obj "p.dhcpoption" [.num 0, .bytes []],
     .obj "p.dhcpoption" [.num 55, .bytes [1, 3, 6]]], DhcpOption.WFv o := by decide
@@ -549,8 +597,8 @@ def kDHCP : KindOps :=
    fun recv d => do let r ← PDHCP.write recv d.bytes; .ok r.1, PDHCP.zero⟩
 
 /-- well-formed DHCP message: fixed fields within their widths, four 4-byte addresses, a hardware address of exactly
-    `HardwareLen ≤ 16` bytes, 64-byte server name and 128-byte file (Go arrays), well-formed options, total size within
-    the 16-bit `Len()` -/
+    `HardwareLen ≤ 16` bytes, 64-byte server name and 128-byte file (Go arrays), well-formed options, total size
+    (240 fixed bytes, the options' bytes, the end marker) within the 16-bit `Len()` -/
 def DHCP.WFv : V → Prop
   | .obj "p.DHCP" [.num op, .num ht, .num hl, .num ho, .num xid, .num secs, .num fl, .bytes cip, .bytes yip, .bytes sip,
       .bytes gip, .bytes hw, .bytes sname, .bytes file, .list os] =>
@@ -560,18 +608,12 @@ def DHCP.WFv : V → Prop
   | _ => False
 instance : DecidablePred DHCP.WFv := fun v => by unfold DHCP.WFv; split <;> infer_instance
 
-/-- number of pad options of a message -/
-def DHCP.pads : V → Nat
-  | .obj "p.DHCP" [_, _, _, _, _, _, _, _, _, _, _, _, _, _, .list os] => (os.map dhcpPad).sum
-  | _ => 0
-
-/-- value and bytes of EVERY well-formed message round-trip (pad options included): `Read` produces `bs` — 240 fixed bytes
-    with the magic cookie, the options in order, the end marker; `Write` of `bs`, followed by anything, into any
-    receiver gives back exactly `v` (all fixed fields, the hardware address cut to `HardwareLen`, server name, file,
-    every option) and reports the whole input as consumed.  Size: `Len()` = `bs.length` + number of pad options.
-    Missing with respect to C09 when the message has pad options: `Len()` = bytes (`dhcp_pad_len_overreports`). -/
-theorem dhcp_roundtrip_partial (v : V) (h : DHCP.WFv v) :
-    ∃ bs l, PDHCP.readBuf v = .ok bs ∧ PDHCP.len v = .ok l ∧ l.toNat = bs.length + DHCP.pads v ∧
+/-- value, bytes and size of EVERY well-formed message round-trip (pad options included), stated with the pieces
+    named: `Read` produces `bs` — 240 fixed bytes with the magic cookie, the options in order, the end marker; `Len()` =
+    `bs.length`; `Write` of `bs`, followed by anything, into any receiver gives back exactly `v` (all fixed fields, the
+    four addresses, the hardware address, server name, file, every option) and reports the whole input as consumed -/
+theorem dhcp_codec (v : V) (h : DHCP.WFv v) :
+    ∃ bs l, PDHCP.readBuf v = .ok bs ∧ PDHCP.len v = .ok l ∧ l.toNat = bs.length ∧
       (∀ n, bs.length ≤ n → PDHCP.read v n = .ok bs) ∧
       ∀ recv tail, PDHCP.write recv (bs ++ tail) = .ok (v, bs.length + tail.length) := by
   unfold DHCP.WFv at h
@@ -582,10 +624,10 @@ theorem dhcp_roundtrip_partial (v : V) (h : DHCP.WFv v) :
     obtain ⟨_, _, _, e4, _⟩ := dhcp_opts_enc os hk
     obtain ⟨l, hl1, hl2⟩ := dhcp_len (.num op) (.num ht) (.num hl) (.num ho) (.num xid) (.num secs) (.num fl) (.bytes cip)
       (.bytes yip) (.bytes sip) (.bytes gip) (.bytes hw) (.bytes sname) (.bytes file) os hk hsz
-    have hfl := dhcpFixed_length op ht hl ho xid secs fl cip yip sip gip hw sname file c1 c2 c3 c4
+    have hfl := dhcpFixed_length op ht hl ho xid secs fl cip yip sip gip hw sname file
     have hrb := dhcp_readBuf op ht hl ho xid secs fl cip yip sip gip hw sname file os hk
     refine ⟨_, l, hrb, hl1, ?_, ?_, ?_⟩
-    · simp only [DHCP.pads, List.length_append, hfl, List.length_cons, List.length_nil]
+    · simp only [List.length_append, hfl, List.length_cons, List.length_nil]
       omega
     · intro n hn
       simp only [PDHCP.read, hrb, Res.bind_ok]
@@ -604,10 +646,11 @@ theorem dhcp_roundtrip_partial (v : V) (h : DHCP.WFv v) :
       omega
   · exact h.elim
 
-/-- a well-formed DHCP message without pad options round-trips in the full C09 sense: decode(encode v) = v,
-    re-encoding reproduces the bytes (`RoundTrip.reencode`), `Len()` = bytes; bytes behind the end marker are ignored -/
-theorem dhcp_roundtrip (v : V) (h : DHCP.WFv v) (hp : DHCP.pads v = 0) : RoundTripPrefix kDHCP v := by
-  obtain ⟨bs, l, h1, h2, h3, _, h5⟩ := dhcp_roundtrip_partial v h
+/-- EVERY well-formed DHCP message — with or without pad options — round-trips in the full C09 sense:
+    decode(encode v) = v, re-encoding reproduces the bytes (`RoundTrip.reencode`), `Len()` = bytes; bytes behind the end
+    marker are ignored -/
+theorem dhcp_roundtrip (v : V) (h : DHCP.WFv v) : RoundTripPrefix kDHCP v := by
+  obtain ⟨bs, l, h1, h2, h3, _, h5⟩ := dhcp_codec v h
   refine ⟨bs, l, ?_, ?_, by omega, ?_⟩
   · simp only [kDHCP, h1, Res.bind_ok, same]
   · simp only [kDHCP, PDHCP.lenM, h2, Res.bind_ok, same]
@@ -615,9 +658,9 @@ theorem dhcp_roundtrip (v : V) (h : DHCP.WFv v) (hp : DHCP.pads v = 0) : RoundTr
     simp only [kDHCP, Slice.bytes, take_app_ge bs tail n hn1, h5, Res.bind_ok]
 
 /-- … and the byte count `Write` reports for exactly the encoding is the reported size -/
-theorem dhcp_roundtrip_count (v : V) (h : DHCP.WFv v) (hp : DHCP.pads v = 0) :
+theorem dhcp_roundtrip_count (v : V) (h : DHCP.WFv v) :
     ∃ bs l, PDHCP.readBuf v = .ok bs ∧ PDHCP.len v = .ok l ∧ ∀ recv, PDHCP.write recv bs = .ok (v, l.toNat) := by
-  obtain ⟨bs, l, h1, h2, h3, _, h5⟩ := dhcp_roundtrip_partial v h
+  obtain ⟨bs, l, h1, h2, h3, _, h5⟩ := dhcp_codec v h
   refine ⟨bs, l, h1, h2, ?_⟩
   intro recv
   have := h5 recv []
@@ -643,29 +686,29 @@ def dhcpEx2 : V := .obj "p.DHCP" [.num 1, .num 1, .num 6, .num 0, .num 0xdeadbee
   .list [.obj "p.dhcpoption" [.num 53, .bytes [3]],
     .obj "p.dhcpoption" [.num 61, .bytes [1, 0xaa, 0xbb, 0xcc, 0xdd, 0xee, 0xff]]]]
 
-example : DHCP.WFv dhcpEx2 ∧ DHCP.pads dhcpEx2 = 0 := by decide
+example : DHCP.WFv dhcpEx2 := by decide
 
-/-- the messages the library's own constructors build are well-formed and free of pads: `NewDHCPDiscover(xid, mac)` -/
-example : ∃ v, PDHCP.newMsg 1 true 0x1234 [0xaa, 0xbb, 0xcc, 0xdd, 0xee, 0xff] = .ok v ∧ DHCP.WFv v ∧ DHCP.pads v = 0 :=
-  ⟨_, rfl, by decide, by decide⟩
+/-- the messages the library's own constructors build are well-formed: `NewDHCPDiscover(xid, mac)` -/
+example : ∃ v, PDHCP.newMsg 1 true 0x1234 [0xaa, 0xbb, 0xcc, 0xdd, 0xee, 0xff] = .ok v ∧ DHCP.WFv v :=
+  ⟨_, rfl, by decide⟩
 
 
-/-- DEFECT witness (size), message level: `dhcpEx` (one pad option) is 254 bytes on the wire — options
-    `53 1 3 | 0 | 61 7 01 aa bb cc dd ee ff | 255` behind the 240 fixed bytes — and `Write` consumes 254, but `Len()`
-    reports 255 -/
-theorem dhcp_pad_len_overreports :
-    PDHCP.len dhcpEx = .ok 255 ∧
+/-- size of a message WITH a pad option, bytes spelled out: `dhcpEx` (one pad option) is 254 bytes on the wire —
+    options `53 1 3 | 0 | 61 7 01 aa bb cc dd ee ff | 255` behind the 240 fixed bytes — `Write` consumes 254 and returns
+    `dhcpEx`, and `Len()` reports 254 -/
+theorem dhcp_pad_len_exact :
+    PDHCP.len dhcpEx = .ok 254 ∧
     ∃ bs, PDHCP.readBuf dhcpEx = .ok bs ∧ bs.length = 254 ∧
       bs.drop 240 = [53, 1, 3, 0, 61, 7, 1, 0xaa, 0xbb, 0xcc, 0xdd, 0xee, 0xff, 255] ∧
       PDHCP.write PDHCP.zero bs = .ok (dhcpEx, 254) := by
   refine ⟨rfl, ?_⟩
-  obtain ⟨bs, l, h1, _, _, _, h5⟩ := dhcp_roundtrip_partial dhcpEx (by decide)
+  obtain ⟨bs, l, h1, _, _, _, h5⟩ := dhcp_codec dhcpEx (by decide)
   have hb : PDHCP.readBuf dhcpEx = .ok (dhcpFixed 1 1 6 0 0xdeadbeef 3 0x8000 [0, 0, 0, 0] [10, 0, 0, 5] [10, 0, 0, 1] [0, 0, 0, 0]
       [0xaa, 0xbb, 0xcc, 0xdd, 0xee, 0xff] (zeros 64) (zeros 128) ++ [53, 1, 3, 0, 61, 7, 1, 0xaa, 0xbb, 0xcc, 0xdd, 0xee, 0xff, 255]) :=
     dhcp_readBuf 1 1 6 0 0xdeadbeef 3 0x8000 [0, 0, 0, 0] [10, 0, 0, 5] [10, 0, 0, 1] [0, 0, 0, 0]
       [0xaa, 0xbb, 0xcc, 0xdd, 0xee, 0xff] (zeros 64) (zeros 128) _ (by decide)
   have hl := dhcpFixed_length 1 1 6 0 0xdeadbeef 3 0x8000 [0, 0, 0, 0] [10, 0, 0, 5] [10, 0, 0, 1] [0, 0, 0, 0]
-      [0xaa, 0xbb, 0xcc, 0xdd, 0xee, 0xff] (zeros 64) (zeros 128) rfl rfl rfl rfl
+      [0xaa, 0xbb, 0xcc, 0xdd, 0xee, 0xff] (zeros 64) (zeros 128)
   rw [hb] at h1
   cases h1
   refine ⟨_, hb, by rw [List.length_append, hl]; rfl, List.drop_left' hl, ?_⟩
@@ -702,7 +745,7 @@ theorem dhcp_hwaddr_len_partial (op ht hl ho xid secs fl : Nat) (cip yip sip gip
           bs.length + tail.length) := by
   obtain ⟨h1, h2, h3, h4, h5, h6, h7, c1, c2, c3, c4, c7, c8, hos⟩ := h
   have hk : ∀ o ∈ os, DhcpOptOK o := fun o ho => (dhcpoption_wf_iff o).mp (hos o ho)
-  have hfl := dhcpFixed_length op ht hl ho xid secs fl cip yip sip gip hw sname file c1 c2 c3 c4
+  have hfl := dhcpFixed_length op ht hl ho xid secs fl cip yip sip gip hw sname file
   refine ⟨_, dhcp_readBuf op ht hl ho xid secs fl cip yip sip gip hw sname file os hk, ?_⟩
   intro recv tail
   have hb : dhcpFixed op ht hl ho xid secs fl cip yip sip gip hw sname file ++ (dhcpOptsWire os ++ [255]) ++ tail
@@ -710,7 +753,7 @@ theorem dhcp_hwaddr_len_partial (op ht hl ho xid secs fl : Nat) (cip yip sip gip
     rw [dhcpFixed_hw_take]
     simp only [List.append_assoc, List.cons_append, List.nil_append]
   rw [hb, dhcp_write_fixed_gen recv op ht hl ho xid secs fl cip yip sip gip (hw.take 16) sname file _ h1 h2 h3 h4 h5 h6 h7
-    c1 c2 c3 c4 (by simp; omega) c7 c8, if_neg (by omega)]
+    (by simp; omega) c7 c8, if_neg (by omega), ip4_four cip c1, ip4_four yip c2, ip4_four sip c3, ip4_four gip c4]
   have hp : PDhcpOpt.parseOptions (Slice.exact (dhcpOptsWire os ++ (255 :: tail))) = .ok os :=
     dhcp_parse_end os hk tail _ (by simp)
   rw [hp]
@@ -736,7 +779,7 @@ theorem dhcp_hwlen_over_16_rejected (op ht hl ho xid secs fl : Nat) (cip yip sip
   intro recv tail
   rw [dhcpFixed_hw_take, List.append_assoc,
     dhcp_write_fixed_gen recv op ht hl ho xid secs fl cip yip sip gip (hw.take 16) sname file _ h1 h2 h3 h4 h5 h6 h7
-    c1 c2 c3 c4 (by simp; omega) c7 c8, if_pos hhl]
+    (by simp; omega) c7 c8, if_pos hhl]
 
 /-- instance: HardwareLen 20 with a 20-byte address (InfiniBand-style), every other field in range -/
 example : DhcpFieldsOK 1 32 20 0 7 0 0 [0, 0, 0, 0] [0, 0, 0, 0] [0, 0, 0, 0] [0, 0, 0, 0] (zeros 64) (zeros 128)
@@ -760,7 +803,7 @@ theorem dhcp_new_hwaddr_not_preserved :
     simp only [dhcpOf] at h1'
     rw [dhcp_readBuf _ _ _ _ _ _ _ _ _ _ _ _ _ _ [] (by simp)] at h1'
     cases h1'
-    rw [List.length_append, dhcpFixed_length _ _ _ _ _ _ _ _ _ _ _ _ _ _ rfl rfl rfl rfl]
+    rw [List.length_append, dhcpFixed_length _ _ _ _ _ _ _ _ _ _ _ _ _ _]
     rfl
   refine ⟨bs, h1, hl, ?_, ?_⟩
   · have := h2 PDHCP.zero []
@@ -770,47 +813,129 @@ theorem dhcp_new_hwaddr_not_preserved :
     simp [dhcpOf, zeros] at heq
 
 
-/-! ### the end marker as an explicit option, and 16-byte IP addresses -/
+/-! ### the end marker as an explicit option, and address fields that are not 4 bytes long -/
 
 /-- why `DhcpOption.WFv` excludes the end marker also at the END of the list: a message whose option list ends with an
     explicit end option (tag 255, any data) is encoded to exactly the bytes of the message without it — so decoding
     returns the list WITHOUT the end option: decode(encode v') ≠ v'.  What remains true for such v': re-encoding the
-    decoded message reproduces the bytes.  (`Len()` counts `2 + len(data)` for the explicit end option and 1 for the
-    implicit one.) -/
+    decoded message reproduces the bytes, and `Len()` = bytes (the explicit end option counts 1, and the 1 for the
+    implicit one is then not added). -/
 theorem dhcp_explicit_end_partial (op ht hl ho xid secs fl : Nat) (cip yip sip gip hw sname file : Bytes) (os : List V)
     (h : DHCP.WFv (dhcpOf op ht hl ho xid secs fl cip yip sip gip hw sname file os)) (d : Bytes) :
-    ∃ bs, PDHCP.readBuf (dhcpOf op ht hl ho xid secs fl cip yip sip gip hw sname file
+    ∃ bs l, PDHCP.readBuf (dhcpOf op ht hl ho xid secs fl cip yip sip gip hw sname file
           (os ++ [.obj "p.dhcpoption" [.num 255, .bytes d]])) = .ok bs ∧
       PDHCP.readBuf (dhcpOf op ht hl ho xid secs fl cip yip sip gip hw sname file os) = .ok bs ∧
+      PDHCP.len (dhcpOf op ht hl ho xid secs fl cip yip sip gip hw sname file
+          (os ++ [.obj "p.dhcpoption" [.num 255, .bytes d]])) = .ok l ∧ l.toNat = bs.length ∧
       (∀ recv tail, PDHCP.write recv (bs ++ tail) =
         .ok (dhcpOf op ht hl ho xid secs fl cip yip sip gip hw sname file os, bs.length + tail.length)) ∧
       dhcpOf op ht hl ho xid secs fl cip yip sip gip hw sname file (os ++ [.obj "p.dhcpoption" [.num 255, .bytes d]])
         ≠ dhcpOf op ht hl ho xid secs fl cip yip sip gip hw sname file os := by
-  obtain ⟨bs, l, h1, _, _, _, h5⟩ := dhcp_roundtrip_partial _ h
+  obtain ⟨bs, l, h1, h2, h3, _, h5⟩ := dhcp_codec _ h
   have hos : ∀ o ∈ os, DhcpOptOK o := by
     simp only [dhcpOf, DHCP.WFv] at h
     exact fun o ho => (dhcpoption_wf_iff o).mp (h.2.2.2.2.2.2.2.2.2.2.2.2.2.2.2.1 o ho)
-  refine ⟨bs, ?_, h1, h5, ?_⟩
+  have hsz : 240 + (os.map dhcpOptLen).sum + 1 < 65536 := by
+    simp only [dhcpOf, DHCP.WFv] at h
+    exact h.2.2.2.2.2.2.2.2.2.2.2.2.2.2.2.2
+  obtain ⟨l', hl1, hl2⟩ := dhcp_len_end (.num op) (.num ht) (.num hl) (.num ho) (.num xid) (.num secs) (.num fl) (.bytes cip)
+    (.bytes yip) (.bytes sip) (.bytes gip) (.bytes hw) (.bytes sname) (.bytes file) os hos hsz d
+  obtain ⟨l2, hl3, hl4⟩ := dhcp_len (.num op) (.num ht) (.num hl) (.num ho) (.num xid) (.num secs) (.num fl) (.bytes cip)
+    (.bytes yip) (.bytes sip) (.bytes gip) (.bytes hw) (.bytes sname) (.bytes file) os hos hsz
+  refine ⟨bs, l', ?_, h1, hl1, ?_, h5, ?_⟩
   · have h1' := h1
     simp only [dhcpOf] at h1' ⊢
     rw [dhcp_readBuf _ _ _ _ _ _ _ _ _ _ _ _ _ _ os hos] at h1'
     rw [dhcp_readBuf_end _ _ _ _ _ _ _ _ _ _ _ _ _ _ os hos d]
     exact h1'
+  · have h2' := h2
+    simp only [dhcpOf] at h2'
+    rw [hl3] at h2'
+    cases h2'
+    omega
   · intro heq
     simp [dhcpOf] at heq
 
 example : DHCP.WFv (dhcpOf 2 1 6 0 0xcafe 0 0 [0, 0, 0, 0] [10, 0, 0, 5] [10, 0, 0, 1] [0, 0, 0, 0]
     [0xaa, 0xbb, 0xcc, 0xdd, 0xee, 0xff] (zeros 64) (zeros 128) [.obj "p.dhcpoption" [.num 53, .bytes [2]]]) := by decide
 
+/-- ADDRESS FIELDS of any length: `DHCP.Read` writes each of the four `net.IP` fields in its 4-byte wire form
+    `dhcpIP4(ip)` = `To4()` copied into four zero bytes (`PDHCP.ip4`: a 4-byte address as it is — `ip4_four`; a 16-byte
+    v4-mapped address as its last four bytes — `ip4_mapped`; anything else as 0.0.0.0 — `ip4_other`).  So a message whose
+    other fields are well-formed encodes to exactly the bytes of the message with the four addresses replaced by their
+    4-byte forms, `Len()` = bytes, and `Write` returns that normalised message: the frame is intact, and the decoded
+    value differs from the original only in the representation of the addresses. -/
+theorem dhcp_addr_to4 (op ht hl ho xid secs fl : Nat) (cip yip sip gip hw sname file : Bytes) (os : List V)
+    (h : DHCP.WFv (dhcpOf op ht hl ho xid secs fl (PDHCP.ip4 cip) (PDHCP.ip4 yip) (PDHCP.ip4 sip) (PDHCP.ip4 gip)
+      hw sname file os)) :
+    ∃ bs l, PDHCP.readBuf (dhcpOf op ht hl ho xid secs fl cip yip sip gip hw sname file os) = .ok bs ∧
+      PDHCP.readBuf (dhcpOf op ht hl ho xid secs fl (PDHCP.ip4 cip) (PDHCP.ip4 yip) (PDHCP.ip4 sip) (PDHCP.ip4 gip)
+        hw sname file os) = .ok bs ∧
+      PDHCP.len (dhcpOf op ht hl ho xid secs fl cip yip sip gip hw sname file os) = .ok l ∧ l.toNat = bs.length ∧
+      ∀ recv tail, PDHCP.write recv (bs ++ tail) =
+        .ok (dhcpOf op ht hl ho xid secs fl (PDHCP.ip4 cip) (PDHCP.ip4 yip) (PDHCP.ip4 sip) (PDHCP.ip4 gip)
+          hw sname file os, bs.length + tail.length) := by
+  obtain ⟨bs, l, h1, h2, h3, _, h5⟩ := dhcp_codec _ h
+  have hos : ∀ o ∈ os, DhcpOptOK o := by
+    simp only [dhcpOf, DHCP.WFv] at h
+    exact fun o ho => (dhcpoption_wf_iff o).mp (h.2.2.2.2.2.2.2.2.2.2.2.2.2.2.2.1 o ho)
+  refine ⟨bs, l, ?_, h1, h2, h3, h5⟩
+  have h1' := h1
+  simp only [dhcpOf] at h1' ⊢
+  rw [dhcp_readBuf _ _ _ _ _ _ _ _ _ _ _ _ _ _ os hos, ← dhcpFixed_ip4] at h1'
+  rw [dhcp_readBuf _ _ _ _ _ _ _ _ _ _ _ _ _ _ os hos]
+  exact h1'
+
+/-- the three cases of the 4-byte wire form of an address field -/
+theorem dhcp_ip4_cases (ip : Bytes) :
+    (ip.length = 4 → PDHCP.ip4 ip = ip) ∧ (∀ a b c d, ip = ipV4Mapped a b c d → PDHCP.ip4 ip = [a, b, c, d]) ∧
+    (pIpTo4? ip = none → PDHCP.ip4 ip = zeros 4) ∧ (PDHCP.ip4 ip).length = 4 :=
+  ⟨ip4_four ip, fun a b c d e => by rw [e]; exact ip4_mapped a b c d, ip4_other ip, ip4_length ip⟩
+
+/-- a 16-byte `net.IP` (what `net.ParseIP("10.0.0.1")` / `net.IPv4(10, 0, 0, 1)` return: `::ffff:a.b.c.d`) as `ClientIP`,
+    for ALL messages that are well-formed with the 4-byte address `a b c d`: the message is encoded to the same bytes as
+    with the 4-byte address (240 fixed bytes, no field shifted), `Write` accepts them and returns the message with the
+    4-byte address — which differs from the original value only in that representation: 4 bytes instead of 16 -/
+theorem dhcp_ip16_to4 (op ht hl ho xid secs fl : Nat) (a b c d : UInt8) (yip sip gip hw sname file : Bytes) (os : List V)
+    (h : DHCP.WFv (dhcpOf op ht hl ho xid secs fl [a, b, c, d] yip sip gip hw sname file os)) :
+    ∃ bs l, PDHCP.readBuf (dhcpOf op ht hl ho xid secs fl (ipV4Mapped a b c d) yip sip gip hw sname file os) = .ok bs ∧
+      PDHCP.readBuf (dhcpOf op ht hl ho xid secs fl [a, b, c, d] yip sip gip hw sname file os) = .ok bs ∧
+      PDHCP.len (dhcpOf op ht hl ho xid secs fl (ipV4Mapped a b c d) yip sip gip hw sname file os) = .ok l ∧
+      l.toNat = bs.length ∧
+      (∀ recv tail, PDHCP.write recv (bs ++ tail) =
+        .ok (dhcpOf op ht hl ho xid secs fl [a, b, c, d] yip sip gip hw sname file os, bs.length + tail.length)) ∧
+      dhcpOf op ht hl ho xid secs fl (ipV4Mapped a b c d) yip sip gip hw sname file os
+        ≠ dhcpOf op ht hl ho xid secs fl [a, b, c, d] yip sip gip hw sname file os := by
+  have hq : yip.length = 4 ∧ sip.length = 4 ∧ gip.length = 4 := by
+    simp only [dhcpOf, DHCP.WFv] at h
+    exact ⟨h.2.2.2.2.2.2.2.2.1, h.2.2.2.2.2.2.2.2.2.1, h.2.2.2.2.2.2.2.2.2.2.1⟩
+  have := dhcp_addr_to4 op ht hl ho xid secs fl (ipV4Mapped a b c d) yip sip gip hw sname file os
+    (by rw [ip4_mapped, ip4_four yip hq.1, ip4_four sip hq.2.1, ip4_four gip hq.2.2]; exact h)
+  rw [ip4_mapped, ip4_four yip hq.1, ip4_four sip hq.2.1, ip4_four gip hq.2.2] at this
+  obtain ⟨bs, l, g1, g2, g3, g4, g5⟩ := this
+  refine ⟨bs, l, g1, g2, g3, g4, g5, ?_⟩
+  intro heq
+  simp [dhcpOf, ipV4Mapped, zeros] at heq
+
+example : DHCP.WFv (dhcpOf 1 1 6 0 7 0 0 [10, 0, 0, 1] (zeros 4) (zeros 4) (zeros 4) [0xaa, 0xbb, 0xcc, 0xdd, 0xee, 0xff]
+    (zeros 64) (zeros 128) []) := by decide
+
 set_option maxRecDepth 100000 in
-/-- DEFECT witness (frame corrupted): `DHCP.Read` writes the four IP fields with `binary.Write`, i.e. ALL their bytes,
-    without `To4()`.  A `net.IP` in its usual 16-byte form (what `net.ParseIP("10.0.0.1")` returns) as `ClientIP` makes
-    the fixed part 252 bytes long, every later field is shifted by 12, and `Write` of the result fails (the magic cookie is
-    not at offset 236).  Hence `DHCP.WFv` demands 4-byte addresses. -/
-theorem dhcp_ip16_breaks_frame :
+/-- the same with the bytes spelled out (replayable on the Go library): `ClientIP` = the 16-byte form of 10.0.0.1 —
+    `Read` produces 241 bytes (240 fixed + end marker) with `0a 00 00 01` at offset 12, and `Write` of them returns the
+    message with `ClientIP` = `0a 00 00 01` and reports 241 -/
+theorem dhcp_ip16_example :
     ∃ bs, PDHCP.readBuf (dhcpOf 1 1 6 0 7 0 0 [0, 0, 0, 0, 0, 0, 0, 0, 0, 0, 0xff, 0xff, 10, 0, 0, 1] (zeros 4) (zeros 4) (zeros 4)
-        [0xaa, 0xbb, 0xcc, 0xdd, 0xee, 0xff] (zeros 64) (zeros 128) []) = .ok bs ∧ bs.length = 253 ∧
-      PDHCP.write PDHCP.zero bs = .err :=
-  ⟨_, rfl, rfl, rfl⟩
+        [0xaa, 0xbb, 0xcc, 0xdd, 0xee, 0xff] (zeros 64) (zeros 128) []) = .ok bs ∧ bs.length = 241 ∧
+      (bs.drop 12).take 4 = [10, 0, 0, 1] ∧
+      PDHCP.write PDHCP.zero bs = .ok (dhcpOf 1 1 6 0 7 0 0 [10, 0, 0, 1] (zeros 4) (zeros 4) (zeros 4)
+        [0xaa, 0xbb, 0xcc, 0xdd, 0xee, 0xff] (zeros 64) (zeros 128) [], 241) :=
+  ⟨_, rfl, rfl, rfl, rfl⟩
+
+/-- what cannot be carried: an address that is neither 4 bytes nor a 16-byte v4-mapped one (an IPv6 address, an empty
+    slice — the fields of `new(DHCP)`) is written as 0.0.0.0 and comes back as four zero bytes -/
+theorem dhcp_addr_not_v4_zeroed :
+    PDHCP.ip4 [0x20, 0x01, 0x0d, 0xb8, 0, 0, 0, 0, 0, 0, 0, 0, 0, 0, 0, 1] = [0, 0, 0, 0] ∧ PDHCP.ip4 [] = [0, 0, 0, 0] :=
+  ⟨rfl, rfl⟩
 
 end OFV.Props.C09b
